@@ -337,6 +337,217 @@ def gen_cases(rng, tier):
     return cases
 
 
+
+# ---------------------------------------------------------------------------
+# image datasets (model-compared): descriptor -> pydicom Dataset / Coq [dset]
+# ---------------------------------------------------------------------------
+SOP = {'ct': '1.2.840.10008.5.1.4.1.1.2', 'ect': '1.2.840.10008.5.1.4.1.1.2.1',
+       'wsi': '1.2.840.10008.5.1.4.1.1.77.1.6'}
+
+
+def _fg(pm=None, ipp=None, iop=None, slide=None):
+    return {'pm': pm, 'ipp': ipp, 'iop': iop, 'slide': slide}
+
+
+def _ds_blank(sop):
+    return {'sop': sop, 'for': '1.2.3', 'ori_slide': None, 'root': None, 'shared': None, 'perframe': None,
+            'tiled_full': False, 'origin': None, 'rows': 16, 'cols': 16, 'R': 0, 'C': 0, 'focal': 1, 'paths': 1}
+
+
+def _ds_single(rng, g):
+    d = _ds_blank('ct')
+    d['root'] = {'ipp': g['pos'], 'iop': g['ori'], 'ps': g['sp'], 'ss': g['ss'] if rng.random() < 0.5 else None}
+    return d
+
+
+def _ds_multiframe(rng, g, n):
+    """enhanced (patient) multi-frame: frames stacked along the normal"""
+    d = _ds_blank('ect')
+    nrm = _cross([F(x) for x in g['ori'][:3]], [F(x) for x in g['ori'][3:]])
+    pm = {'sp': g['sp'], 'ss': g['ss'] if rng.random() < 0.7 else None}
+    pm_shared, ori_shared = rng.random() < 0.7, rng.random() < 0.5
+    pos_shared = n == 1 and rng.random() < 0.3
+    positions = [_S([F(g['pos'][j]) + i * F(g['ss']) * nrm[j] for j in range(3)]) for i in range(n)]
+    d['shared'] = _fg(pm=pm if pm_shared else None, iop=g['ori'] if ori_shared else None,
+                      ipp=positions[0] if pos_shared else None)
+    d['perframe'] = [_fg(pm=None if pm_shared else pm, iop=None if ori_shared else g['ori'],
+                         ipp=None if pos_shared else positions[i]) for i in range(n)]
+    d['_positions'] = positions
+    return d
+
+
+def _ds_wsi(rng, g, tiled_full, z_origin=None):
+    d = _ds_blank('wsi')
+    d['ori_slide'] = g['ori']
+    d['rows'], d['cols'] = rng.randint(1, 5), rng.randint(1, 5)
+    d['R'], d['C'] = rng.randint(1, 9), rng.randint(1, 9)
+    d['origin'] = [g['pos'][0], g['pos'][1], z_origin]
+    d['shared'] = _fg(pm={'sp': g['sp'], 'ss': g['ss'] if rng.random() < 0.5 else None})
+    d['tiled_full'] = tiled_full
+    nr, nc = -(-d['R'] // d['rows']), -(-d['C'] // d['cols'])
+    if tiled_full:
+        d['focal'], d['paths'] = rng.choice([1, 1, 2]), rng.choice([1, 1, 2])
+    else:
+        g0 = dict(g, pos=[g['pos'][0], g['pos'][1], z_origin or '0'])
+        pf = []
+        for a in range(nr):
+            for b in range(nc):
+                x = _ref_of(g0, F(b * d['cols']), F(a * d['rows']))
+                pf.append(_fg(slide=_S(x)))
+        d['perframe'] = pf
+    return d
+
+
+def _ds_nframes(d):
+    if d['perframe'] is not None:
+        return len(d['perframe'])
+    if d['tiled_full']:
+        return -(-d['R'] // d['rows']) * -(-d['C'] // d['cols']) * d['focal'] * d['paths']
+    return 1
+
+
+def _ds_cases(rng, N):
+    out = []
+    pts = lambda: _pts_int(rng, 2, 0, 12)          # noqa: E731
+
+    def info(d, frame, tpm, **kw):
+        out.append(dict({'kind': 'ds_info', 'ds': d, 'frame': frame, 'tpm': tpm, 'pts': pts()}, **kw))
+    for _ in range(6 * N):                         # single-frame images
+        g = _geom(rng)
+        info(_ds_single(rng, g), rng.choice([None, None, 1]), False, g=g)
+    for _ in range(10 * N):                        # multi-frame, patient
+        g = _geom(rng)
+        n = rng.randint(1, 4)
+        d = _ds_multiframe(rng, g, n)
+        info(d, rng.randint(1, n), False, g=g)
+    for _ in range(14 * N):                        # TILED_FULL: every tile shape, focal planes, optical paths
+        g = _geom(rng)
+        g['pos'][2] = '0'
+        d = _ds_wsi(rng, g, True, rng.choice([None, None, '0']))
+        info(d, rng.randint(1, _ds_nframes(d)), False, g=g)
+        if rng.random() < 0.5:
+            info(d, None, True, g=g)
+    for _ in range(6 * N):                         # TILED_FULL whose origin item carries a Z offset (seg/sop.py writes it)
+        g = _geom(rng)
+        g['pos'][2] = '0'
+        z = str(_dy(rng, -40, 40) or F(3))
+        d = _ds_wsi(rng, g, True, z)
+        d['focal'] = 1
+        info(d, rng.randint(1, _ds_nframes(d)), False, g=g, origin_z=True)
+        info(d, None, True, g=g, origin_z=True)
+    for _ in range(8 * N):                         # tiled, explicit per-frame positions
+        g = _geom(rng)
+        g['pos'][2] = '0'
+        d = _ds_wsi(rng, g, False, rng.choice([None, '0', str(_dy(rng, -40, 40))]))
+        info(d, rng.randint(1, _ds_nframes(d)), False, g=g)
+        if rng.random() < 0.5:
+            info(d, None, True, g=g)
+    for _ in range(16 * N):                        # every guard of _get_spatial_information once
+        g = _geom(rng)
+        g['pos'][2] = '0'
+        bad = rng.choice(['no_for', 'single_frame2', 'single_frame0', 'single_tpm', 'mf_noframe', 'mf_frame_hi',
+                          'mf_frame0', 'mf_frame_neg', 'mf_no_pm', 'mf_no_pos', 'mf_no_ori', 'mf_no_shared',
+                          'tf_frame0', 'tf_frame_hi', 'wsi_noframe', 'wsi_no_pm', 'tpm_no_origin', 'tf_ori_len',
+                          'no_position_anywhere', 'single_missing_ps'])
+        if bad.startswith('single') or bad == 'no_for' or bad == 'no_position_anywhere':
+            d = _ds_single(rng, g)
+            frame, tpm = None, False
+            if bad == 'no_for':
+                d['for'] = None
+            elif bad == 'single_frame2':
+                frame = rng.choice([2, 3])
+            elif bad == 'single_frame0':
+                frame = 0
+            elif bad == 'single_tpm':
+                tpm = True
+            elif bad == 'single_missing_ps':
+                d['root']['ps'] = None
+            else:
+                d['root']['ipp'] = None
+        elif bad.startswith('mf'):
+            n = rng.randint(2, 4)
+            d = _ds_multiframe(rng, g, n)
+            frame, tpm = rng.randint(1, n), False
+            if bad == 'mf_noframe':
+                frame = None
+            elif bad == 'mf_frame_hi':
+                frame = n + rng.randint(1, 2)
+            elif bad == 'mf_frame0':
+                frame = 0
+            elif bad == 'mf_frame_neg':
+                frame = -rng.randint(1, n + 1)
+            elif bad == 'mf_no_pm':
+                d['shared']['pm'] = None
+                for fg in d['perframe']:
+                    fg['pm'] = None
+            elif bad == 'mf_no_pos':
+                d['shared']['ipp'] = None
+                for fg in d['perframe'][1:]:
+                    fg['ipp'] = None
+                frame = rng.randint(2, n)
+            elif bad == 'mf_no_ori':
+                d['shared']['iop'] = None
+                for fg in d['perframe']:
+                    fg['iop'] = None
+            elif bad == 'mf_no_shared':
+                d['shared'] = None
+        else:
+            tf = bad.startswith('tf') or rng.random() < 0.5
+            d = _ds_wsi(rng, g, tf, None)
+            nfr = _ds_nframes(d)
+            frame, tpm = rng.randint(1, nfr), False
+            if bad == 'tf_frame0':
+                frame = 0
+            elif bad == 'tf_frame_hi':
+                frame = nfr + rng.randint(1, 3)
+            elif bad == 'wsi_noframe':
+                frame = None
+            elif bad == 'wsi_no_pm':
+                d['shared']['pm'] = None
+                tpm = rng.random() < 0.5
+            elif bad == 'tpm_no_origin':
+                d['origin'], tpm, frame = None, True, None
+                d['tiled_full'], d['perframe'] = False, [_fg(slide=['0', '0', '0'])]
+            elif bad == 'tf_ori_len':
+                d['ori_slide'] = rng.choice([g['ori'][:5], g['ori'] + ['0']])
+        info(d, frame, tpm, g=g, bad=bad)
+    for _ in range(10 * N):                        # for_images: frame -> total pixel matrix, frame -> frame, other FoR
+        g = _geom(rng)
+        g['pos'][2] = '0'
+        tf = rng.random() < 0.6
+        d = _ds_wsi(rng, g, tf, None)
+        d['focal'] = 1
+        nfr = _ds_nframes(d)
+        rel = rng.choice(['frame_tpm', 'frame_tpm', 'tpm_frame', 'frame_frame', 'other_for', 'no_for'])
+        a = b = d
+        fa, fb, ta, tb = rng.randint(1, nfr), None, False, True
+        if rel == 'tpm_frame':
+            fa, fb, ta, tb = None, rng.randint(1, nfr), True, False
+        elif rel == 'frame_frame':
+            fb, tb = rng.randint(1, nfr), False
+        elif rel == 'other_for':
+            b = dict(d, **{'for': '1.2.4'})
+        elif rel == 'no_for':
+            b = dict(d, **{'for': None})
+        out.append({'kind': 'ds_pair', 'a': a, 'b': b, 'fa': fa, 'fb': fb, 'ta': ta, 'tb': tb, 'rel': rel, 'g': g,
+                    'pts': pts()})
+    for _ in range(4 * N):                         # for_images between a slice of a multi-frame image and a single frame
+        g = _geom(rng)
+        n = rng.randint(1, 3)
+        a = _ds_multiframe(rng, g, n)
+        fa = rng.randint(1, n)
+        g2 = dict(g, pos=a['_positions'][fa - 1]) if rng.random() < 0.6 else dict(g, pos=a['_positions'][0])
+        out.append({'kind': 'ds_pair', 'a': a, 'b': _ds_single(rng, g2), 'fa': fa, 'fb': None, 'ta': False, 'tb': False,
+                    'rel': 'mf_single', 'g': g, 'g2': g2, 'pts': pts()})
+    for _ in range(10 * N):                        # the frames iter_tiled_full_frame_data yields
+        g = _geom(rng)
+        g['pos'][2] = '0'
+        d = _ds_wsi(rng, g, True, rng.choice([None, str(_dy(rng, -40, 40))]))
+        nfr = _ds_nframes(d)
+        out.append({'kind': 'ds_tile', 'ds': d, 'g': g, 'frame': rng.choice([1, nfr, rng.randint(1, nfr), nfr + 1, 0])})
+    return out
+
+
 def _pair(rng, coplanar_only=False):
     """two image geometries: same plane (shifted/scaled/rotated in plane/flipped) or not"""
     g = _geom(rng)
@@ -724,6 +935,14 @@ def run_impl(c):
         return _run_identities(c)
     if k == 'for_image':
         return _run_for_image(c)
+    if k == 'ds_info':
+        return _run_ds_info(c)
+    if k == 'ds_pair':
+        return _run_ds_pair(c)
+    if k == 'ds_tile':
+        return _run_ds_tile(c)
+    if k == 'geom_more':
+        return _run_geom_more(c)
     raise ValueError(k)
 
 
@@ -868,6 +1087,145 @@ def _run_for_image(c):
             ds, ds, frame_number_from=c['frame'], for_total_pixel_matrix_to=True)(idx + 0.5).tolist()
         out['off'] = off.tolist()
     return out
+
+
+
+# ---------------------------------------------------------------------------
+# image datasets: implementation side
+# ---------------------------------------------------------------------------
+def _catch2(fn):
+    """catch + StopIteration (next() on an exhausted islice)"""
+    try:
+        return catch(fn)
+    except StopIteration:
+        return Err('StopIteration')
+
+
+def _ds_build(d):
+    from pydicom import Dataset
+    ds = Dataset()
+    ds.SOPClassUID = SOP[d['sop']]
+    if d['for'] is not None:
+        ds.FrameOfReferenceUID = d['for']
+    ds.Rows, ds.Columns = d['rows'], d['cols']
+    r = d['root']
+    if r is not None:
+        for k, kw in (('ipp', 'ImagePositionPatient'), ('iop', 'ImageOrientationPatient'), ('ps', 'PixelSpacing')):
+            if r.get(k) is not None:
+                setattr(ds, kw, _fl(r[k]))
+        if r.get('ss') is not None:
+            ds.SpacingBetweenSlices = _f(r['ss'])
+    if d['ori_slide'] is not None:
+        ds.ImageOrientationSlide = _fl(d['ori_slide'])
+
+    def group(fg):
+        it = Dataset()
+        if fg['pm'] is not None:
+            pm = Dataset()
+            pm.PixelSpacing = _fl(fg['pm']['sp'])
+            if fg['pm']['ss'] is not None:
+                pm.SpacingBetweenSlices = _f(fg['pm']['ss'])
+            it.PixelMeasuresSequence = [pm]
+        if fg['ipp'] is not None:
+            pp = Dataset()
+            pp.ImagePositionPatient = _fl(fg['ipp'])
+            it.PlanePositionSequence = [pp]
+        if fg['iop'] is not None:
+            po = Dataset()
+            po.ImageOrientationPatient = _fl(fg['iop'])
+            it.PlaneOrientationSequence = [po]
+        if fg['slide'] is not None:
+            ps = Dataset()
+            (ps.XOffsetInSlideCoordinateSystem, ps.YOffsetInSlideCoordinateSystem,
+             ps.ZOffsetInSlideCoordinateSystem) = _fl(fg['slide'])
+            it.PlanePositionSlideSequence = [ps]
+        return it
+    if d['shared'] is not None:
+        ds.SharedFunctionalGroupsSequence = [group(d['shared'])]
+    if d['perframe'] is not None:
+        ds.PerFrameFunctionalGroupsSequence = [group(fg) for fg in d['perframe']]
+    if d['tiled_full']:
+        ds.DimensionOrganizationType = 'TILED_FULL'
+    if d['origin'] is not None:
+        o = Dataset()
+        o.XOffsetInSlideCoordinateSystem, o.YOffsetInSlideCoordinateSystem = _f(d['origin'][0]), _f(d['origin'][1])
+        if d['origin'][2] is not None:
+            o.ZOffsetInSlideCoordinateSystem = _f(d['origin'][2])
+        ds.TotalPixelMatrixOriginSequence = [o]
+    if d['sop'] == 'wsi':
+        ds.TotalPixelMatrixRows, ds.TotalPixelMatrixColumns = d['R'], d['C']
+        ds.TotalPixelMatrixFocalPlanes = d['focal']
+        ds.NumberOfOpticalPaths = d['paths']
+        ds.OpticalPathSequence = [Dataset() for _ in range(d['paths'])]
+    ds.NumberOfFrames = _ds_nframes(d)
+    return ds
+
+
+def _run_ds_info(c):
+    import numpy as np
+    from highdicom import spatial as S
+    ds = _ds_build(c['ds'])
+    kw = {'frame_number': c['frame'], 'for_total_pixel_matrix': c['tpm']}
+    idx = np.array(c['pts'], dtype=np.int64).reshape(len(c['pts']), 2)
+
+    def info():
+        p, o, s, ss = S._get_spatial_information(ds, **kw)
+        return [[float(x) for x in p], [float(x) for x in o], [float(x) for x in s], None if ss is None else float(ss)]
+
+    def cs():
+        v = S.get_image_coordinate_system(ds)
+        return None if v is None else v.value
+
+    def p2r():
+        t = S.PixelToReferenceTransformer.for_image(ds, **kw)
+        return [t.affine.tolist(), t(idx).tolist()]
+    return [_catch2(cs),
+            [_catch2(info), _catch2(p2r),
+             _catch2(lambda: S.ImageToReferenceTransformer.for_image(ds, **kw).affine.tolist()),
+             _catch2(lambda: S.ReferenceToPixelTransformer.for_image(ds, round_output=False, **kw).affine.tolist()),
+             _catch2(lambda: S.ReferenceToImageTransformer.for_image(ds, **kw).affine.tolist())]]
+
+
+def _run_ds_pair(c):
+    import numpy as np
+    from highdicom import spatial as S
+    a, b = _ds_build(c['a']), (_ds_build(c['b']) if c['b'] is not c['a'] else None)
+    b = a if b is None else b
+    kw = {'frame_number_from': c['fa'], 'frame_number_to': c['fb'],
+          'for_total_pixel_matrix_from': c['ta'], 'for_total_pixel_matrix_to': c['tb']}
+    idx = np.array(c['pts'], dtype=np.int64).reshape(len(c['pts']), 2)
+
+    def p2p():
+        t = S.PixelToPixelTransformer.for_images(a, b, round_output=False, **kw)
+        return [t.affine.tolist(), t(idx).tolist()]
+    return [_catch2(p2p), _catch2(lambda: S.ImageToImageTransformer.for_images(a, b, **kw).affine.tolist())]
+
+
+def _run_ds_tile(c):
+    import itertools as it
+    from highdicom import spatial as S
+    ds = _ds_build(c['ds'])
+
+    def f():
+        ch, fp, col, row, x, y, z = next(it.islice(S.iter_tiled_full_frame_data(ds), c['frame'] - 1, c['frame']))
+        return [ch, fp, col, row, [x, y, z]]
+    return _catch2(f)
+
+
+def _run_geom_more(c):
+    import numpy as np
+    from highdicom.volume import VolumeGeometry
+    pos, ori, sp = map(_pyarg, _args(c))
+    nf, rows, cols = c['shape']
+
+    def f():
+        G = VolumeGeometry.from_attributes(
+            image_position=pos, image_orientation=ori, rows=rows, columns=cols, pixel_spacing=sp,
+            spacing_between_slices=_f(c['g']['ss']), number_of_frames=nf, coordinate_system='PATIENT')
+        return [list(G.pixel_spacing), G.spacing_between_slices, G.voxel_volume, list(G.physical_extent),
+                G.physical_volume, G.direction.tolist(), [v.tolist() for v in G.spacing_vectors()],
+                [v.tolist() for v in G.unit_vectors()], G.inverse_affine.tolist()]
+    return catch(f)
 
 
 def _run_malformed(c):
@@ -1048,18 +1406,57 @@ def _comp_term(c, head):
             f"{_oql(c.get('direction'))} {_os(c.get('po'))}")
 
 
+def _oarg(x):
+    return 'None' if x is None else f'(Some (ASeq {ql(x)}))'
+
+
+def _oq(x):
+    return 'None' if x is None else f'(Some {qlit(F(x))})'
+
+
+def _fg_term(fg):
+    pm = 'None' if fg['pm'] is None else f"(Some (PMeas (ASeq {ql(fg['pm']['sp'])}) {_oq(fg['pm']['ss'])}))"
+    sl = 'None' if fg['slide'] is None else '(Some (' + ', '.join(qlit(F(x)) for x in fg['slide']) + '))'
+    return f"(FGroup {pm} {_oarg(fg['ipp'])} {_oarg(fg['iop'])} {sl})"
+
+
+def _ds_term(d):
+    r = d['root'] or {}
+    sh = 'None' if d['shared'] is None else f"(Some {_fg_term(d['shared'])})"
+    pf = 'None' if d['perframe'] is None else '(Some [' + '; '.join(_fg_term(fg) for fg in d['perframe']) + '])'
+    og = 'None' if d['origin'] is None else \
+        f"(Some ({qlit(F(d['origin'][0]))}, {qlit(F(d['origin'][1]))}, {_oq(d['origin'][2])}))"
+    return (f"(DSet {_os(d['for'])} {_b(d['sop'] != 'ct')} {_b(d['sop'] == 'wsi')} {_oql(d['ori_slide'])} false "
+            f"{_oarg(r.get('ipp'))} {_oarg(r.get('iop'))} {_oarg(r.get('ps'))} {_oq(r.get('ss'))} {sh} {pf} "
+            f"{_b(d['tiled_full'])} {og} {zlit(d['rows'])} {zlit(d['cols'])} {zlit(d['R'])} {zlit(d['C'])} "
+            f"{zlit(d['focal'])} {zlit(d['paths'])})")
+
+
+def _oz(x):
+    return 'None' if x is None else f'(Some {zlit(x)})'
+
+
+
 def coq_term(c):
     k = c['kind']
     if k == 'malformed':
         return _malformed_term(c)
     if k in ('identities', 'for_image'):
         return None
+    if k == 'ds_info':
+        return (f"(let d := {_ds_term(c['ds'])} in VL [run_coordinate_system d; "
+                f"run_for_image d {_oz(c['frame'])} {_b(c['tpm'])} {_qll(c['pts'])}])")
+    if k == 'ds_pair':
+        return (f"(run_for_images {_ds_term(c['a'])} {_ds_term(c['b'])} {_oz(c['fa'])} {_oz(c['fb'])} "
+                f"{_b(c['ta'])} {_b(c['tb'])} {_qll(c['pts'])})")
+    if k == 'ds_tile':
+        return f"(run_tiled_full_frame {_ds_term(c['ds'])} {zlit(c['frame'])})"
     g = c.get('g')
     if k == 'rotation':
         return (f"(VL [run_rotation {ql(g['ori'])} {_s(c['conv'])} {_b(c['sf'])} {_s(c['hand'])} {_arg(c['sp'])} "
                 f"{qlit(F(c['ss']))}; run_normal {ql(g['ori'])} {_s(c['conv'])} {_s(c['hand'])}])")
     if k in ('affine_attr', 'inv_affine', 'p2r', 'i2r', 'r2p', 'r2i', 'p2p', 'i2i', 'map_pixel', 'map_coord',
-             'geom_attr', 'geom_maps'):
+             'geom_attr', 'geom_maps', 'geom_more'):
         a = ' '.join(_arg(x) for x in _args(c))
         ss = qlit(F(g['ss']))
         if k == 'affine_attr':
@@ -1085,6 +1482,8 @@ def coq_term(c):
             x = ' '.join(qlit(F(v)) for v in c['x'])
             return f"(run_map_coord {x} {a} {ss})"
         nf, rows, cols = c['shape']
+        if k == 'geom_more':
+            return f"(run_geom_more {a} {ss} {nf} {rows} {cols})"
         if k == 'geom_attr':
             return f"(run_geom_attr {a} {ss} {nf} {rows} {cols} {_s(c['to'])})"
         return f"(run_geom_maps {a} {ss} {nf} {rows} {cols} {_qll(c['pts'])})"
@@ -1301,6 +1700,151 @@ def _oracle_geom(c, out, cols, t, spacings):
     return None
 
 
+# ---- datasets: expectations from first principles (never the Coq model) ----
+DS_BAD_KIND = {'no_for': 'ValueError', 'single_frame2': 'TypeError', 'single_frame0': 'TypeError',
+               'single_tpm': 'ValueError', 'mf_noframe': 'TypeError', 'mf_frame_hi': 'IndexError',
+               'mf_no_pm': 'ValueError', 'mf_no_pos': 'ValueError', 'mf_no_ori': 'ValueError',
+               'tf_frame0': 'ValueError', 'wsi_noframe': 'TypeError', 'wsi_no_pm': 'ValueError',
+               'tpm_no_origin': 'ValueError', 'no_position_anywhere': 'ValueError'}
+
+
+def _ds_tile_of(d, frame):
+    """(channel, focal plane index, zero-based column offset, row offset) of a 1-based frame of a tiled image"""
+    nr, nc = -(-d['R'] // d['rows']), -(-d['C'] // d['cols'])
+    k = frame - 1
+    t = k % (nr * nc)
+    a, b = divmod(t, nc)
+    return k // (nr * nc * d['focal']), (k // (nr * nc)) % d['focal'], b * d['cols'], a * d['rows']
+
+
+def _ds_expected(c, d, frame, tpm):
+    """(position, orientation, spacing) the property assigns to the image / frame / total pixel matrix"""
+    g = c['g']
+    if d['sop'] == 'ct':
+        return [F(x) for x in d['root']['ipp']], g['ori'], g['sp']
+    if d['sop'] == 'ect':
+        return [F(x) for x in d['_positions'][frame - 1]], g['ori'], g['sp']
+    z0 = F(d['origin'][2] or 0)
+    g0 = dict(g, pos=[d['origin'][0], d['origin'][1], str(z0)])
+    if tpm:
+        return [F(x) for x in g0['pos']], g['ori'], g['sp']
+    _, fp, C0, R0 = _ds_tile_of(d, frame)
+    pos = _ref_of(g0, F(C0), F(R0))
+    ss = F(d['shared']['pm']['ss'] or 1)
+    pos[2] += fp * ss
+    return pos, g['ori'], g['sp']
+
+
+def _oracle_ds_info(c, out):
+    cs, (info, p2r, i2r, r2p, r2i) = out
+    d = c['ds']
+    bad = c.get('bad')
+    if bad in ('mf_frame0', 'mf_frame_neg'):
+        return None      # observation (claims note): Python negative indexing, not judged
+    if bad is not None:
+        if not _is_err(p2r):
+            return f'{bad}: for_image accepted the dataset: {p2r}'
+        want = DS_BAD_KIND.get(bad)
+        if want and not _is_err(p2r, want):
+            return f'{bad}: expected {want}, got {p2r}'
+        return None
+    want_cs = 'SLIDE' if d['sop'] == 'wsi' else 'PATIENT'
+    if cs != want_cs:
+        return f'get_image_coordinate_system = {cs}, expected {want_cs}'
+    for name, v in (('_get_spatial_information', info), ('P2R.for_image', p2r), ('I2R.for_image', i2r),
+                    ('R2P.for_image', r2p), ('R2I.for_image', r2i)):
+        if _is_err(v):
+            return f'{name} refused a valid dataset: {v}'
+    pos, ori, sp = _ds_expected(c, d, c['frame'], c['tpm'])
+    if not _allclose(info[:3], [pos, [F(x) for x in ori], [F(x) for x in sp]], 1e3):
+        return f'_get_spatial_information = {info}, expected position {[str(x) for x in pos]} orientation {ori} spacing {sp}'
+    ge = dict(c['g'], pos=_S(pos), ss='1')
+    _, rv, cv, n, sr, sc, _ = _frame(ge)
+    cols = [[x * sc for x in rv], [x * sr for x in cv], list(n)]
+    if not _allclose(p2r[0], _affine_rows(cols, pos), 1e3):
+        return (f'for_image affine {p2r[0]} differs from the explicit-attribute affine {_affine_rows(cols, pos)}')
+    want = [_ref_of(ge, F(q[0]), F(q[1])) for q in c['pts']]
+    if not _allclose(p2r[1], want, 1e3):
+        return f'P2R.for_image(p) = {p2r[1]}, expected {want}'
+    for q, x in zip(c['pts'], want):
+        for name, A, h in (('R2P', r2p, 0.0), ('R2I', r2i, 0.5)):
+            got = [sum(A[i][j] * float(x[j]) for j in range(3)) + A[i][3] for i in range(3)]
+            if not _allclose(got, [q[0] + h, q[1] + h, 0], 1e3):
+                return f'{name}.for_image maps the position of pixel {q} to {got}'
+        got = [sum(i2r[i][j] * v for j, v in enumerate([q[0] + 0.5, q[1] + 0.5, 0.0])) + i2r[i][3] for i in range(3)]
+        if not _allclose(got, x, 1e3):
+            return f'I2R.for_image(p + 1/2) = {got}, expected {x}'
+    return None
+
+
+def _oracle_ds_pair(c, out):
+    p2p, i2i = out
+    rel = c['rel']
+    if rel in ('other_for', 'no_for'):
+        return None if _is_err(p2p, 'ValueError') and _is_err(i2i, 'ValueError') else f'{rel}: accepted {out}'
+    if rel == 'mf_single':
+        same = c['g2']['pos'] == c['a']['_positions'][c['fa'] - 1]
+        if not same:
+            return None if _is_err(p2p, 'ValueError') else f'parallel distinct planes accepted: {p2p}'
+        off = (0, 0)
+    else:
+        offs = []
+        for d, f, t in ((c['a'], c['fa'], c['ta']), (c['b'], c['fb'], c['tb'])):
+            offs.append((0, 0) if t else _ds_tile_of(d, f)[2:])
+        off = (offs[0][0] - offs[1][0], offs[0][1] - offs[1][1])
+    if _is_err(p2p) or _is_err(i2i):
+        return f'{rel}: coplanar frames refused: {out}'
+    want = [[q[0] + off[0], q[1] + off[1]] for q in c['pts']]
+    if not _allclose(p2p[1], want, 1e3):
+        return f'{rel}: P2P.for_images(p) = {p2p[1]}, expected p + {off} = {want}'
+    for q, w in zip(c['pts'], want):
+        got = [sum(i2i[i][j] * v for j, v in enumerate([q[0] + 0.5, q[1] + 0.5, 0.0])) + i2i[i][3] for i in range(2)]
+        if not _allclose(got, [w[0] + 0.5, w[1] + 0.5], 1e3):
+            return f'{rel}: I2I.for_images(p + 1/2) = {got}, expected {w} + 1/2'
+    return None
+
+
+def _oracle_ds_tile(c, out):
+    d, f = c['ds'], c['frame']
+    nfr = _ds_nframes(d)
+    if f < 1 or f > nfr:
+        return None if _is_err(out) else f'frame {f} of {nfr} yielded {out}'
+    if _is_err(out):
+        return f'frame {f} of {nfr} refused: {out}'
+    ch, fp, C0, R0 = _ds_tile_of(d, f)
+    pos, _, _ = _ds_expected(c, d, f, False)
+    want = [ch + 1, fp + 1, C0 + 1, R0 + 1, pos]
+    if out[:4] != want[:4] or not _allclose(out[4], pos, 1e3):
+        return f'iter_tiled_full_frame_data item {f} = {out}, expected {want[:4]} {[str(x) for x in pos]}'
+    if not (1 <= out[2] <= d['C'] and 1 <= out[3] <= d['R']):
+        return f'tile offsets {out[2:4]} outside the total pixel matrix {d["C"]}x{d["R"]}'
+    return None
+
+
+def _oracle_geom_more(c, out):
+    if _is_err(out):
+        return f'refused: {out}'
+    pos, rv, cv, n, sr, sc, ss = _frame(c['g'])
+    ps, sbs, vv, ext, pv, direction, svec, uvec, inv = out
+    nf, rows, cols_ = c['shape']
+    unit = [[-x for x in n], list(cv), list(rv)]
+    sps = [ss, sr, sc]
+    checks = [('pixel_spacing', ps, [sr, sc]), ('spacing_between_slices', sbs, ss), ('voxel_volume', vv, ss * sr * sc),
+              ('physical_extent', ext, [nf * ss, rows * sr, cols_ * sc]),
+              ('physical_volume', pv, ss * sr * sc * nf * rows * cols_),
+              ('direction', _cols_of(direction), unit), ('unit_vectors', uvec, unit),
+              ('spacing_vectors', svec, [[x * sps[j] for x in unit[j]] for j in range(3)])]
+    for name, got, want in checks:
+        if not _allclose(got, want, 1e3):
+            return f'{name} = {got}, expected {want}'
+    for p in ([0, 0, 0], [1, 0, 0], [0, 1, 0], [0, 0, 1], [2, -3, 5]):
+        x = [pos[i] + sum(unit[j][i] * sps[j] * p[j] for j in range(3)) for i in range(3)]
+        got = [sum(inv[i][j] * float(x[j]) for j in range(3)) + inv[i][3] for i in range(3)]
+        if not _allclose(got, p, 1e3):
+            return f'inverse_affine maps the position of index {p} to {got}'
+    return None
+
+
 def oracle(c, out):
     k = c['kind']
     if k == 'malformed':
@@ -1493,6 +2037,14 @@ def oracle(c, out):
         return _oracle_identities(c, out)
     if k == 'for_image':
         return _oracle_for_image(c, out)
+    if k == 'ds_info':
+        return _oracle_ds_info(c, out)
+    if k == 'ds_pair':
+        return _oracle_ds_pair(c, out)
+    if k == 'ds_tile':
+        return _oracle_ds_tile(c, out)
+    if k == 'geom_more':
+        return _oracle_geom_more(c, out)
     return f'unknown kind {k}'
 
 
@@ -1615,10 +2167,11 @@ def shrink(c):
         if gk in c:
             g = c[gk]
             if g['pos'] != ['0', '0', '0'] and c['kind'] not in ('p2p', 'i2i', 'coplanar', 'identities', 'r2p', 'r2i',
-                                                                  'map_coord', 'malformed', 'for_image'):
+                                                                  'map_coord', 'malformed', 'for_image', 'ds_info',
+                                                                  'ds_pair', 'ds_tile'):
                 yield dict(c, **{gk: dict(g, pos=['0', '0', '0'])})
             if g['sp'] != ['1', '1'] and c['kind'] not in ('r2p', 'r2i', 'map_coord', 'p2p', 'i2i', 'identities',
-                                                            'malformed', 'for_image'):
+                                                            'malformed', 'for_image', 'ds_info', 'ds_pair', 'ds_tile'):
                 yield dict(c, **{gk: dict(g, sp=['1', '1'])})
     if 'shape' in c and c['shape'] and any(n > 1 for n in c['shape']) and c['kind'] != 'malformed':
         yield dict(c, shape=[1 if n > 1 else n for n in c['shape']])
